@@ -8,7 +8,6 @@ import (
 	"os"
 	"strconv"
 
-	"d2verif/internal/core"
 	"d2verif/internal/props"
 )
 
@@ -37,6 +36,26 @@ func main() {
 			}
 		}
 		os.Exit(rc)
+	case "mutants":
+		ids := os.Args[2:]
+		if len(ids) == 0 || ids[0] == "all" {
+			ids = props.IDs()
+		}
+		rc := 0
+		for _, id := range ids {
+			fired, total, fails := runMutants(id, true)
+			fmt.Printf("%s: %d/%d mutants behaved as expected\n", id, fired, total)
+			for _, f := range fails {
+				fmt.Println("  FAIL  " + f)
+				rc = 1
+			}
+		}
+		os.Exit(rc)
+	case "manifest":
+		if err := writeManifest(); err != nil {
+			fmt.Println(err)
+			os.Exit(2)
+		}
 	case "list":
 		for _, id := range props.IDs() {
 			fmt.Println(id, props.Get(id).Title)
@@ -58,33 +77,17 @@ func main() {
 }
 
 func runOne(id, tier string, seed int) (rc int) {
-	p := props.Get(id)
-	if p == nil {
+	if props.Get(id) == nil {
 		fmt.Printf("unknown property %s\n", id)
 		return 2
 	}
-	c := core.NewCheck(id, tier, seed)
-	c.Explanation = p.Explanation
-	c.NotCovered = p.NotCovered
-	c.Trust = p.Trust
-	defer func() {
-		if r := recover(); r != nil {
-			c.Broken("analyzer panic: %v", r)
-			rc = c.Finish()
-			if os.Getenv("D2VERIF_DEBUG") != "" {
-				panic(r)
-			}
+	c := analyze(id, tier, seed, nil)
+	if tier == "thorough" {
+		fired, total, fails := runMutants(id, false)
+		c.Note("mutant self-test (overlay edits of the current files): %d/%d behaved as expected", fired, total)
+		for _, f := range fails {
+			c.Broken("mutant self-test: %s", f)
 		}
-	}()
-	prog, err := core.Load(core.LoadOpts{Patterns: p.Patterns, All: p.All, MinRoots: 1})
-	if err != nil {
-		c.Broken("%v", err)
-		return c.Finish()
-	}
-	c.P = prog
-	p.Run(c)
-	if tier == "thorough" && p.Thorough != nil {
-		p.Thorough(c)
 	}
 	return c.Finish()
 }
